@@ -120,6 +120,8 @@ class PyFat(object):
         self.first_free_cluster = 0
         self.fat_type = self.FAT_TYPE_UNKNOWN
         self.fat = {}
+        #: Reserved upper four bits of FAT32 entries (index -> bits)
+        self._fat32_reserved = {}
         self.initialized = False
         self.encoding = encoding
         self.is_read_only = True
@@ -322,6 +324,7 @@ class PyFat(object):
         fat_entry_size = self.fat_type / 8
         total_entries = int(fat_size // fat_entry_size)
         self.fat = [None] * total_entries
+        self._fat32_reserved = {}
 
         curr = 0
         cluster = 0
@@ -355,7 +358,11 @@ class PyFat(object):
                                                   fats[0][int(curr):
                                                           int(offset)])[0]
                 # Ignore first four bits, FAT32 clusters are
-                # actually just 28bits long
+                # actually just 28bits long; the reserved bits have
+                # to be preserved when the FAT is written back
+                if self.fat[cluster] & 0xF0000000:
+                    self._fat32_reserved[cluster] = \
+                        self.fat[cluster] & 0xF0000000
                 self.fat[cluster] &= 0x0FFFFFFF
             else:
                 raise PyFATException("Unknown FAT type, cannot continue")
@@ -391,8 +398,11 @@ class PyFat(object):
                 # FAT32
                 fmt = "L"
 
-            b = struct.pack(f"<{fmt * len(self.fat)}",
-                            *self.fat)
+            fat = self.fat
+            reserved = getattr(self, "_fat32_reserved", None)
+            if fmt == "L" and reserved:
+                fat = [e | reserved.get(i, 0) for i, e in enumerate(fat)]
+            b = struct.pack(f"<{fmt * len(fat)}", *fat)
         return b
 
     @_init_check
